@@ -70,6 +70,31 @@ CHECKS = {
     technique="TLA+ reference resolver vs the renaming machine of unique_vars.rs and the SSA version key (Scopes.tla, TLC over all scope trees); TLC-generated trees with Ref's bindings rendered and lifted by the real code, IR names / SSA def-use / CS0001-CS0002 reports compared",
     text="TLC enumerates every scope tree within the bounds (declarations and read-write uses of {x, x_0} up to 12 (14) expansion steps and of {x, y, x_0, x_1} up to 9 (11), optional parameter, nested and sibling blocks) and prints Ref's binding for every occurrence and the expected shadowing pairs. Each tree is rendered (blocks as plain blocks, if, if/else, while, for bodies), lifted by the real code and compared: equal (name, suffix) exactly for occurrences of one declaration; after SSA every read has a definition with its (name, suffix, version); the CS0001 reports are exactly the redeclarations of visible names with the shadowed declaration (or parameter list) as secondary label; repeated parameters give CS0002; sampled trees are run through the real binary to see the warnings displayed. L1: the transcribed renaming machine is faithful for every tree.",
     note="Declarations carry initialisers and all uses are bound; occurrences are identified by literals."),
+ "C06": dict(
+    level="model_checking", design="§5 C06",
+    technique="TLA+ reference executor of a Circom fragment over F_P (Semantics.tla, values as tables over the signal valuations, operators from Field.tla); the real analysis run over the same small field (hook H3), its constant claims mapped onto the abstract program and checked by TLC in every execution",
+    text="TLC enumerates every statement skeleton (declarations with/without initialiser, assignments, if, if/else, while, nested, asserts; functions and templates) within a step bound and every depth-1 expression over all 23 operators and the ternary (plus sampled depth-2 ones) in four data-flow contexts (direct, join, partial definition, loop); the harness instantiates them, the real code analyses them over F_5 (thorough: F_5 and F_7), and every constant the tool attaches to an expression node or assignment, and every `always true/false` finding, becomes a claim that TLC checks before the statement executes in every execution: all parameter valuations, all paths, all signal valuations (as tables).",
+    note="Small fields only (the three real primes are covered operator by operator by C16); function calls, arrays and component ports are outside the executor's fragment and claims about them are not judged; operators/literals of skeleton instances are chosen by seeded rotation."),
+ "C07": dict(
+    level="model_checking", design="§5 C07",
+    technique="Semantics.tla in table mode: a degree claim requires the node to be a polynomial expression and its value table to have total degree <= the claim (coordinate finite differences over F_P^K), checked by TLC in every execution; claims exported from the real analysis (hook H3) incl. CS0013 findings",
+    text="Every depth-1 expression over {signal a, signal b, parameter, local, literals} x all operators (and sampled depth-2 ones) is placed in the contexts direct `<--`, `<==`, through a local, accumulated in a loop, merged at a join, plus the statement skeletons; the tool's degree upper bounds (constant / linear / quadratic) on every node and every `unnecessary signal assignment` finding are checked against the value tables over all signal valuations: the node must be built as a polynomial expression and all (d+1)-fold coordinate differences of its table must vanish.",
+    note="The rank-1 shape A*B+C the compiler also requires is deliberately not demanded (the statement derives the compiler clause from the degree clause); K = 2 indeterminates, P = 5 (7)."),
+ "C08": dict(
+    level="model_checking", design="§5 C08",
+    technique="TLA+ alphabet of assigning / constraining statement forms with Ref's expected findings (SignalAssign.tla) enumerated by TLC; every template rendered, desugared and analysed by the real code; bijection, anchoring and secondary locations compared",
+    text="Every template of <= 4 (thorough: 6) items out of 6 assigning forms (scalar, reversed `-->`, array element in a loop, component input, tuple with `_`, anonymous call with two named `<--` inputs) and 9 constraint forms (`===`, `<==`, `==>` mentioning the assigned signals in different ways, duplicates), x 3 nestings x quadratic / non-quadratic right-hand sides x template / custom template, in rotating layouts (reversed order, two statements per line). Checked: exactly one CS0005/CS0013 per (statement, assigned signal), primary label = the statement (inside it for sugar forms), CS0005 secondaries = exactly the constraint statements mentioning the signal with the same access, nothing for custom templates or other definitions.",
+    note="Which of the two finding kinds is given is C07's business. Known finding: anonymous components inside loop bodies make the template unliftable."),
+ "C09": dict(
+    level="model_checking", design="§5 C09",
+    technique="Self-composition in TLA+ (SemanticsEffects.tla): for every site flagged by CS0006/CS0007/CS0008 TLC runs the definition twice in lock step over F_3 from all inputs, replacing the value written at the site by any value, and compares the effects the statement lists",
+    text="Every statement skeleton within the bound, instantiated with locals, parameters, input / output / intermediate signals, constraints, assertions, loops and branches, is analysed by the real code; each flagged assignment or parameter becomes a site. TLC explores, per site, all valuations of parameters and input signals x all replacement values at every execution of the site, and refutes the claim if a value assigned to an input/output signal, a side of a constraint mentioning one, an assertion outcome, the return value or a branch decision differs between the two runs.",
+    note="F_3; arrays / dimensions and component ports not generated yet; only flagged sites are judged."),
+ "C20": dict(
+    level="model_checking", design="§5 C20",
+    technique="Hook H2 pass budgets: for every program every cut point of value and degree propagation (0..fixpoint each, and the diagonal) is run on the real code; the union of all claims made at any cut is validated by the same TLA+ executor as C06/C07, and the 13 passes must complete on every truncated CFG",
+    text="For each generated program the harness reads the number of passes to the fixpoint and re-runs SSA conversion with every budget pair on the grid {0..Bv} x unlimited, unlimited x {0..Bd} and the diagonal; every run must complete (all passes run on the truncated result) and every constant / degree claim and every CS0009 / CS0013 finding made at any cut point is checked by Semantics.tla in every execution. Claims are judged one by one, so the cut points of one program are validated together with the budgets of each claim remembered for the report.",
+    note="The wall-clock time box itself is replaced by a pass counter (same place in the loop); smaller scopes than C06/C07 because of the budget grid."),
 }
 
 NOT_YET = "check not built yet (work in progress; see DESIGN.md §8 for the order)"
